@@ -131,6 +131,10 @@ CanPerturb(ps, ax, k, i) ==
        [] k = "cbw" -> Len(ps) > 1 /\ IsRadio(s.cls) /\ ~IsBaseband(s.cls)
        [] k \in {"labels+1", "labels-1"} -> Len(ps) > 1 /\ IsRadio(s.cls) /\ i > 1
        [] k = "t0mismatch" -> ax = "freq" /\ Len(ps) > 1 /\ s.hasT /\ (\E j \in 1..Len(ps) : j # i /\ ps[j].sig.hasT)
+       \* the same number in another unit (4 kHz for 4 MHz) is another rate
+       [] k = "rateunit" -> Len(ps) > 1
+       \* the same centre frequency with another alignment: every label moves by half a channel
+       [] k = "align" -> Len(ps) > 1 /\ IsRadio(s.cls) /\ s.nchan % 2 = 0
 DoPerturb(ps, k, i) ==
   LET s == ps[i].sig
   IN CASE k = "shift+1" -> [ps EXCEPT ![i].sig.t0 = s.t0 + s.per]
@@ -143,6 +147,8 @@ DoPerturb(ps, k, i) ==
        [] k = "labels+1" -> [ps EXCEPT ![i].sig.cf = QAdd(s.cf, s.cbw)]
        [] k = "labels-1" -> [ps EXCEPT ![i].sig.cf = QSub(s.cf, s.cbw)]
        [] k = "t0mismatch" -> [ps EXCEPT ![i].sig.t0 = s.t0 + s.per]
+       [] k = "rateunit" -> [ps EXCEPT ![i].ratemul = "unit"]
+       [] k = "align" -> [ps EXCEPT ![i].sig.align = IF s.align = "center" THEN "bottom" ELSE "center"]
 
 Init == /\ root \in Roots
         /\ axis \in (IF IsRadio(root.cls) THEN {"time", "freq"} ELSE {"time"})
